@@ -179,8 +179,29 @@ def main(argv):
         kind = ("Pooled", "Hash1", "HashPooled", "Hash2")[i % 4]
         if kind == "Hash2" and any(c["op"] in ("cas", "gets", "gats", "gets_many") for c in h):
             kind = "Hash1"       # cas tokens are per server: with several servers they are not those of one logical map
-        run_history(Client, h, dnr=(i % 2 == 1), pfx=(b"" if i % 3 else b"ns:"), idx=len(hists) + i, out=out, kind=kind)
+        run_history(Client, h, dnr=((i // 4) % 2 == 1), pfx=(b"" if i % 3 else b"ns:"), idx=len(hists) + i, out=out, kind=kind)
         nwrap += 1
+    # every operation called WITHOUT naming noreply (each has its own default: cas / incr / decr wait for the answer whatever default_noreply says),
+    # with an outcome that differs from the reply-less constant, on every class x default_noreply x prefix
+    s_a = {"op": "set", "k": "a", "v": b"5", "nr": False}
+    unnamed = [[s_a, {"op": "gets", "k": "a"}, {"op": "set", "k": "a", "v": b"6", "nr": False}, {"op": "cas", "k": "a", "v": b"c", "cas": "FRESH"}, {"op": "get", "k": "a"}],
+               [{"op": "cas", "k": "a", "v": b"c", "cas": b"1"}, {"op": "get", "k": "a"}],
+               [s_a, {"op": "gets", "k": "a"}, {"op": "cas", "k": "a", "v": b"c", "cas": "FRESH"}, {"op": "get", "k": "a"}],
+               [{"op": "incr", "k": "a", "d": 1}, s_a, {"op": "incr", "k": "a", "d": 1}, {"op": "decr", "k": "a", "d": 9}, {"op": "get", "k": "a"}],
+               [{"op": "set", "k": "a", "v": b"x", "nr": False}, {"op": "incr", "k": "a", "d": 1}, {"op": "get", "k": "a"}],
+               [{"op": "touch", "k": "a", "e": 100, "nr": None}, s_a, {"op": "touch", "k": "a", "e": 100, "nr": None}, {"op": "ADVANCE", "dt": 50}, {"op": "get", "k": "a"}],
+               [{"op": "set", "k": "a", "v": b"1", "e": 10, "nr": False}, {"op": "touch", "k": "a", "e": 100, "nr": False}, {"op": "ADVANCE", "dt": 50}, {"op": "get", "k": "a"},
+                {"op": "touch", "k": "a", "e": 100, "nr": True}, {"op": "ADVANCE", "dt": 60}, {"op": "get", "k": "a"}]]
+    j = 0
+    for kind in ("Client", "Pooled", "Hash1", "HashPooled", "Hash2"):
+        for h in unnamed:
+            if kind == "Hash2" and any(c["op"] in ("cas", "gets") for c in h):
+                continue
+            for dnr in (True, False):
+                for pfx in (b"", b"ns:"):
+                    j += 1
+                    run_history(Client, tuple(h), dnr=dnr, pfx=pfx, idx=3 * len(hists) + j, out=out, kind=kind)
+                    ctx.count("noreply-left-unnamed histories")
     ctx.count("wrapper-histories", nwrap)
     # ---- a server with an item size limit (as every real one has): a refused item inside a pipelined set_many, or on its own, and then the
     #      calls that follow - every return value is compared with what that server did (a plain dict with the same limit) -----------------------
